@@ -82,7 +82,7 @@ def op_models(op, tier='quick'):
     return [irm.single([irm.op('FULLY_CONNECTED', 'bias')]),
             irm.single([irm.op('TANH')])]
   out = []
-  for v, ar in irm.VARIANTS[op]:
+  for v, ar in irm.variants_of(op, extended=True):
     for xs in (('S4', 'S43') if op in ('EMBEDDING_LOOKUP', 'DEPTHWISE_CONV_2D',
                                       'FULLY_CONNECTED') else ('S4',)):
       out.append(irm.single([irm.op(op, v, [0] * ar)], x=xs))
